@@ -1117,11 +1117,20 @@ class AdaptiveDistance(Discrepancy):
         """
         data = np.column_stack(data)
 
-        self.state['store'][0] += len(data)
-        delta_1 = data - self.state['store'][1]
-        self.state['store'][1] += np.sum(delta_1, axis=0) / self.state['store'][0]
-        delta_2 = data - self.state['store'][1]
-        self.state['store'][2] += np.sum(delta_1 * delta_2, axis=0)
+        # Merge the moments of the new rows into the running moments (pairwise update): the
+        # sum of squares is taken around the new rows' own mean, which stays accurate also
+        # when the summaries are far from zero relative to their spread.
+        n_old = self.state['store'][0]
+        n_new = len(data)
+        if n_new > 0:
+            n_total = n_old + n_new
+            mean_new = np.mean(data, axis=0)
+            delta = mean_new - self.state['store'][1]
+            self.state['store'][0] = n_total
+            self.state['store'][1] = self.state['store'][1] + delta * n_new / n_total
+            sum_sq_new = np.sum((data - mean_new) ** 2, axis=0)
+            self.state['store'][2] = self.state['store'][2] + sum_sq_new \
+                + delta ** 2 * n_old * n_new / n_total
 
         self.state['scale'] = np.sqrt(self.state['store'][2]/self.state['store'][0])
 
